@@ -10,6 +10,6 @@ if os.path.exists(dst):
 shutil.copytree(src, dst)
 json.dump(dict(property=prop, breaks=breaks, needs=needs, files=files, caught_by=caught,
                written_by='an independent sub-agent given only the property text and a scratch worktree (%s)' % note,
-               confirmed='patch applies to /repo HEAD; ledger builds; the 428 pinned tests pass with it and DEMO.sh exits 1 with the change and 0 without (re-run by me in a scratch worktree: /tmp/mut/confirm2.sh); /verif checks run against a scratch worktree with the patch applied (/tmp/mut/mutcheck.sh: VERIF_REPO, VERIF_LEDGER_BUILD)'),
+               confirmed='patch applies to /repo HEAD; ledger builds; the 428 pinned tests pass with it and DEMO.sh exits 1 with the change and 0 without (re-run by me in a scratch worktree: /tmp/seed/mut.sh); /verif checks run against a scratch worktree with the patch applied (/tmp/seed/mut.sh: VERIF_REPO, VERIF_LEDGER_BUILD)'),
           open(os.path.join(dst, 'meta.json'), 'w'), indent=1)
 print('recorded', sid)
